@@ -723,6 +723,61 @@ def w16_cases(rng, thorough):
     return lines, w8
 
 
+EAI_NONAME_UV = -3008
+
+
+def gai_cases(rng, thorough):
+    """host names for the public uv_getaddrinfo: the IDN corpus, ASCII-only, mixed labels, names whose xn-- form is
+    shorter / equal / longer than their UTF-8 bytes, 63-byte labels, 253-byte names, names whose converted form
+    does not fit the 256-byte scratch buffer, ill-formed UTF-8"""
+    names = []
+    for l in corpus_lines("idna.txt"):
+        names.append(unhex(l.split()[1]))
+    U = lambda t: list(t.encode("utf-8"))
+    names += [U("\u00fc.de"), U("\u00fc"), U("a.\u00fc"), U("example.com"), U("b\u00fccher.example"),
+              U("\u4e2d\u6587\u4e2d\u6587\u4e2d\u6587\u4e2d\u6587\u4e2d\u6587.cn"), U("\U0001f4a9.la"),
+              U("ma\u00f1ana\u3002com"), U("x" * 63 + ".com"), U("\u00e9" + "a" * 58), U("\u00e9" + "a" * 59),
+              U(".".join(["a" * 63, "b" * 63, "c" * 63, "d" * 61])), U(".".join(["a" * 63] * 3 + ["\u00fc" * 20])),
+              U(".".join(["a" * 63, "b" * 63, "c" * 63, "d" * 57]) + ".\u00a1"),
+              U("a" * 255), U("a" * 256), U("a" * 300), U("\u00fc" * 120), U("\u4e2d" * 90),
+              [0xE4, 0x41, 0x41, 0x2E, 0x63, 0x6F, 0x6D], [0x78, 0x2E, 0xF1, 0x80, 0x80], [0x80], [0xC3]]
+    for _ in range(6000 if thorough else 1200):
+        bs = [b for b in sum((utf8_encode(c) for c in rand_host(rng)), []) if b] or [0x61]
+        if rng.random() < 0.15:
+            i = rng.randrange(len(bs))
+            bs = bs[:i] + [rng.choice(BOUND_BYTES[6:])] + bs[i + 1:]
+        names.append(bs)
+    for _ in range(600 if thorough else 150):                 # long names around the 253/255 byte limits
+        labs = []
+        while sum(len(x) + 1 for x in labs) < rng.choice([200, 240, 250, 254, 260]):
+            n = rng.choice([1, 5, 20, 62, 63])
+            pool = POOLS[0] if rng.random() < 0.8 else rng.choice(POOLS[1:5])
+            labs.append(sum((utf8_encode(rng.choice(pool)) for _ in range(n)), []))
+        names.append([b for b in sum(([0x2E] + x for x in labs), [])[1:] if b] or [0x61])
+    return [hexs(bs) for bs in names if bs and 0 not in bs]
+
+
+def mon_gai(case, line):
+    bs = unhex(case)
+    f = line.split()
+    rc, called, node = int(f[0]), int(f[1]), unhex(f[2])
+    want_rc, want = toascii_ref(bs, 256)
+    if want_rc < 0:
+        if called or rc != want_rc:
+            return None, "uv_getaddrinfo(%s) must return %d without calling getaddrinfo(); it returned %d%s" % (
+                case[:80], want_rc, rc, " after handing the resolver \"%s\"" % "".join(map(chr, node)) if called else "")
+        return None
+    if not called:
+        return None, "uv_getaddrinfo(%s) = %d without calling getaddrinfo()" % (case[:80], rc)
+    if node != want[:-1]:
+        return None, "uv_getaddrinfo(%s) handed the resolver \"%s\" (%d bytes), the converted name is \"%s\" (%d)%s" % (
+            case[:80], "".join(map(chr, node))[:90], len(node), "".join(map(chr, want[:-1]))[:90], len(want) - 1,
+            ": not NUL-terminated" if node[:len(want) - 1] == want[:-1] or 0x23 in node else "")
+    if rc != EAI_NONAME_UV:
+        return None, "uv_getaddrinfo(%s) = %d, the resolver answered EAI_NONAME" % (case[:80], rc)
+    return None
+
+
 # ---------------------------------------------------------------------------
 def run(chk, lib, thorough):
     """correspondence of Model/Idna.v + Model/Wtf8.v with the functions of src/idna.c in [lib]"""
@@ -731,6 +786,7 @@ def run(chk, lib, thorough):
         h = vf.cc_harness(chk.scratch, "c18_idna", ["c18_idna.c"], lib=lib)
         hdbg = vf.cc_harness(chk.scratch, "c18_idna_dbg", ["c18_idna.c", os.path.join(vf.REPO, "src", "idna.c")],
                              lib=lib, flavour="debug")
+        hgai = vf.cc_harness(chk.scratch, "c18_idna_gai", ["c18_idna_gai.c"], lib=lib)
         model = vf.model_bin("C18_IDNA")
     except vf.BuildError as e:
         chk.violation("build failed: %s" % str(e)[:300], {"kind": "build", "log": str(e)}, found_input=False)
@@ -839,6 +895,26 @@ def run(chk, lib, thorough):
                            "case": inp, "impl": r.stdout[-300:], "model": m}, found_input=aborted)
     chk.corr("asserts of uv_wtf8_to_utf16", len(ainputs))
 
+    # (f) the glue in the public uv_getaddrinfo(): what the resolver is handed = the model's conversion into 256 bytes
+    names = gai_cases(chk.rng, thorough)
+    ga, rc, err = vf.run_lines([hgai], names, shards=vf.JOBS)
+    if rc != 0:
+        chk.violation("uv_getaddrinfo harness died (exit %s): %s" % (rc, (err or "")[-300:]),
+                      {"kind": "crash", "obligation": "uv_getaddrinfo glue", "mode": "gai"}, found_input=False)
+    gm, _, _ = vf.run_lines([model, "idna"], ["256 " + n for n in names], shards=vf.JOBS)
+    gexp = []
+    for m in gm:                                  # model line "<rc> <hex dest> g0" -> what the harness must print
+        f = m.split()
+        mrc, mbuf = int(f[0]), unhex(f[1])
+        gexp.append("%d 0 -" % mrc if mrc < 0 else "%d 1 %s" % (EAI_NONAME_UV, hexs(mbuf[:-1])))
+    cmp.diff("uv_getaddrinfo hands the resolver Model/Idna.v idna_toascii(name, 256)", "gai", names, ga, gexp, mon_gai)
+    conv = [(len(unhex(n)), len(unhex(x.split()[2]))) for n, x in zip(names, ga) if x.split()[1] == "1" and
+            any(b >= 0x80 for b in unhex(n))]
+    chk.cov["gai_names"] = len(names)
+    chk.cov["gai_converted_shorter_equal_longer"] = [sum(1 for a, b in conv if b < a), sum(1 for a, b in conv if b == a),
+                                                     sum(1 for a, b in conv if b > a)]
+    chk.cov["gai_rejected_without_resolver_call"] = sum(1 for x in ga if x.split()[1] == "0")
+
     # (e) the design-time probe, replayed on the real library
     probe = "256 " + hexs(list(b"\xe4AA.com"))
     a, _, _ = vf.run_lines([h, "idna"], [probe])
@@ -894,6 +970,14 @@ def replay(chk, lib):
         print("case %s: exit %d %s" % (case, r.returncode, r.stdout.strip()[-200:]))
         if r.returncode != 0:
             chk.violation("uv_wtf8_to_utf16(%s) aborts in an assert-enabled build" % case, rp)
+        return
+    if mode == "gai":
+        hg = vf.cc_harness(chk.scratch, "c18_idna_gai", ["c18_idna_gai.c"], lib=lib)
+        a, _, _ = vf.run_lines([hg], [case])
+        r = mon_gai(case, a[0]) if a else None
+        print("case  gai %s\nimpl  %s\nmonitor %s" % (case[:200], a[0][:300] if a else None, r[1] if r else "ok"))
+        if r:
+            chk.violation("replay still fails: %s" % r[1], rp)
         return
     a, _, _ = vf.run_lines([h, mode], [case])
     b, _, _ = vf.run_lines([model, mode], [case])
